@@ -42,6 +42,13 @@ class RecFuture(Future):
         return "<RecFuture %s %s>" % (self.tag, self._state)
 
 
+class FalsyRecFuture(RecFuture):
+    """A delegate whose futures are container-like objects that happen to be falsy (len() == 0)."""
+
+    def __len__(self):
+        return 0
+
+
 class ManualExecutor(Executor):
     """A user-supplied delegate: records submissions, never runs anything by itself.
     The scenario completes the returned RecFutures explicitly."""
@@ -53,12 +60,13 @@ class ManualExecutor(Executor):
         self.shutdowns = []
         self.wake = threading.Event()
         self.refuse = False
+        self.future_class = RecFuture
 
     def submit(self, fn, *args, **kwargs):
         sched.point()  # a user-supplied delegate: its submit()/shutdown() are interleaving points
         if self.refuse or self.shutdowns:
             raise RuntimeError("cannot schedule new futures after shutdown")
-        f = RecFuture(self.ev, "%s#%d" % (self.name, len(self.submitted)))
+        f = self.future_class(self.ev, "%s#%d" % (self.name, len(self.submitted)))
         f.fn, f.args, f.kwargs = fn, args, kwargs
         self.submitted.append(f)
         self.ev.add("delegate_submit", tag=f.tag, fn=fn, args=args, kwargs=kwargs, fut=f)
